@@ -280,5 +280,6 @@ MUTANTS = [
     M("accept-finalized", IT, "RenderIterator._from_render_data_", "        if render_data.finalized:\n            raise ValueError(\"The render data has been finalized\")\n", "", {"R5"}),
     M("del-closes-conditionally", IT, "RenderIterator.__del__", "            self.close()\n", "            if self.loop:\n                self.close()\n", {"R3"}),
     M("data-del-finalizes-conditionally", TY, "RenderData.__del__", "self.finalize()", "self.finalized or self._namespaces.clear()", {"R1"}),
+    M("closed-flag-in-finally", IT, "RenderIterator.close", "            self._iterator.close()\n", "            try:\n                self._iterator.close()\n            finally:\n                self._closed = True\n", {"R1"}),
     M("twin-rename-local", RN, "Renderable._init_render_#4", "terminal_size", "term_size", twin=True, count=0),
 ]
